@@ -27,11 +27,12 @@ type Profile struct {
 	Platforms              bool // platform selectors on some targets
 	SleepMs                int  // max per-target latency
 	EdgeProb               int  // percent
+	SharedNames            bool // targets in different packages may carry the same name
 }
 
 func DefaultProfile() Profile {
 	return Profile{MinTargets: 3, MaxTargets: 9, MaxPackages: 4, Aliases: true, NestedFileOuts: true, DirOuts: true,
-		BinOuts: true, Globs: true, Outputless: true, Fingerprints: true, EdgeProb: 35}
+		BinOuts: true, Globs: true, Outputless: true, Fingerprints: true, EdgeProb: 35, SharedNames: true}
 }
 
 var pkgPool = []string{"", "a", "a/b", "p", "p2", "lib/x", "a/b/c"}
@@ -46,17 +47,30 @@ func Gen(r *rng.R, pf Profile) *Spec {
 	sort.Strings(pkgs)
 	n := r.Range(pf.MinTargets, pf.MaxTargets)
 	aliasN := 0
+	// in some workspaces the same target name is used in several packages (//a:build,
+	// //p:build, ...): everything keyed on a label must keep them apart
+	shared := pf.SharedNames && np > 1 && r.Chance(2, 5)
+	usedNames := map[string]bool{}
 	for i := 0; i < n; i++ {
 		t := &Target{Pkg: rng.Pick(r, pkgs), Name: fmt.Sprintf("t%d", i), Salt: r.Word(4, 8)}
 		if pf.Tests && r.Chance(1, 5) {
 			t.Name = fmt.Sprintf("t%d_test", i)
+		} else if shared && r.Chance(1, 2) {
+			if cand := rng.Pick(r, []string{"build", "build", "lib"}); !usedNames[t.Pkg+":"+cand] {
+				t.Name = cand
+			}
 		}
+		usedNames[t.Pkg+":"+t.Name] = true
 		// dependencies on earlier targets
+		depNames := map[string]bool{}
 		for j := 0; j < i; j++ {
-			if !r.Chance(pf.EdgeProb, 100) {
+			// a second dependency with the name of one already chosen (in another package) is
+			// taken more often than chance: //a:build and //p:build side by side
+			if !r.Chance(pf.EdgeProb, 100) && !(shared && depNames[s.Targets[j].Name] && r.Chance(2, 3)) {
 				continue
 			}
 			dep := s.Targets[j]
+			depNames[dep.Name] = true
 			if strings.HasSuffix(dep.Name, "test") && !strings.HasSuffix(t.Name, "test") {
 				continue
 			}
@@ -131,7 +145,8 @@ func Gen(r *rng.R, pf Profile) *Spec {
 			case kind == 2:
 				t.Outs = append(t.Outs, Out{Kind: "file", Path: fmt.Sprintf("gen/n%d/t%d_%d.out", i, i, k)})
 			case kind == 3 || kind == 4:
-				t.Outs = append(t.Outs, Out{Kind: "dir", Path: fmt.Sprintf("t%d_%d.d", i, k)})
+				// shape family by name: mixed / files only / identical sub-directories
+				t.Outs = append(t.Outs, Out{Kind: "dir", Path: fmt.Sprintf("%s%d_%d.d", rng.Pick(r, []string{"t", "t", "flt", "dup"}), i, k)})
 			case kind == 5:
 				if t.Pkg != "" {
 					t.Outs = append(t.Outs, Out{Kind: "file", Path: fmt.Sprintf("../x%d_%d.out", i, k)})
